@@ -242,7 +242,8 @@ inline std::string applyOp(TasmanianSparseGrid &g, const Json &o, sim::Stats *st
             std::string t = o.gets("type", "level");
             std::vector<int> a = ivec(o, "aniso"); fixLen(a, isCurved(t) ? 2 * (size_t)d : (size_t)d, 1);
             int depth = (int)o.geti("depth", 1);
-            if (t.find("tensor") != std::string::npos) depth = std::min(depth, 2);
+            if (t.find("tensor") != std::string::npos) { depth = std::min(depth, 2); for (auto &w : a) w = 1; } // tensor types: levels = depth x weight
+            if (g.isFourier()) depth = std::min(depth, t.find("tensor") != std::string::npos ? 1 : 3);           // 3^level points per dimension
             g.updateGrid(depth, depthOf(t), a, lim());
             if (g.getNumPoints() > 600) g.clearRefinement(); // keep the workload small
             return "ok";
